@@ -250,23 +250,61 @@ func nativeRun(pkgPath, pkgName string, funcs []string, cases []Case) ([]NativeR
 	ovb, _ := json.Marshal(map[string]interface{}{"Replace": repl})
 	ovFile := filepath.Join(tmp, "overlay.json")
 	os.WriteFile(ovFile, ovb, 0o644)
-	cb, _ := json.Marshal(cases)
-	inFile := filepath.Join(tmp, "cases.json")
-	outFile := filepath.Join(tmp, "results.json")
-	os.WriteFile(inFile, cb, 0o644)
-	cmd := exec.Command("go", "test", "-vet=off", "-count=1", "-overlay", ovFile, "-run", "^TestVerifReplay$", relPkgDir(pkgPath))
-	cmd.Dir = repoDir
-	cmd.Env = append(goEnv(), "VERIF_REPLAY="+inFile, "VERIF_REPLAY_OUT="+outFile)
-	out, err := cmd.CombinedOutput()
-	rb, rerr := os.ReadFile(outFile)
-	if rerr != nil {
-		return nil, string(out), fmt.Errorf("native run produced no results: %v (%v)", rerr, err)
+	// build the test binary once, then run it (whole batch first; if the process
+	// dies - e.g. a panic inside a real goroutine cannot be recovered - case by case)
+	bin := filepath.Join(tmp, "replay.test")
+	build := exec.Command("go", "test", "-c", "-vet=off", "-overlay", ovFile, "-o", bin, relPkgDir(pkgPath))
+	build.Dir = repoDir
+	build.Env = goEnv()
+	if out, err := build.CombinedOutput(); err != nil {
+		return nil, string(out), fmt.Errorf("native build failed: %v", err)
 	}
-	var res []NativeResult
-	if err := json.Unmarshal(rb, &res); err != nil {
-		return nil, string(out), err
+	pkgDir := filepath.Join(repoDir, strings.TrimPrefix(pkgPath, "metacontroller/"))
+	runBatch := func(cs []Case, tag string) ([]NativeResult, string, error) {
+		cb, _ := json.Marshal(cs)
+		inFile := filepath.Join(tmp, "cases"+tag+".json")
+		outFile := filepath.Join(tmp, "results"+tag+".json")
+		os.WriteFile(inFile, cb, 0o644)
+		cmd := exec.Command(bin, "-test.run", "^TestVerifReplay$", "-test.count=1")
+		cmd.Dir = pkgDir
+		cmd.Env = append(goEnv(), "VERIF_REPLAY="+inFile, "VERIF_REPLAY_OUT="+outFile)
+		out, err := cmd.CombinedOutput()
+		rb, rerr := os.ReadFile(outFile)
+		if rerr != nil {
+			return nil, string(out), fmt.Errorf("native run produced no results: %v (%v)", rerr, err)
+		}
+		var res []NativeResult
+		if jerr := json.Unmarshal(rb, &res); jerr != nil {
+			return nil, string(out), jerr
+		}
+		return res, string(out), nil
 	}
-	return res, string(out), nil
+	res, out, err := runBatch(cases, "")
+	if err == nil {
+		return res, out, nil
+	}
+	if !strings.Contains(out, "panic:") && !strings.Contains(out, "fatal error:") {
+		return nil, out, err
+	}
+	res = nil
+	for i, c := range cases {
+		one := c
+		one.Repeat = 0
+		r1, o1, e1 := runBatch([]Case{one}, fmt.Sprint(i))
+		if e1 == nil {
+			res = append(res, r1[0])
+			continue
+		}
+		msg := "process died"
+		for _, line := range strings.Split(o1, "\n") {
+			if strings.HasPrefix(line, "panic:") || strings.HasPrefix(line, "fatal error:") {
+				msg = line + " (unrecoverable: the test process died)"
+				break
+			}
+		}
+		res = append(res, NativeResult{Harness: c.Harness, Panic: msg})
+	}
+	return res, out, nil
 }
 
 // ---- run ----
